@@ -424,7 +424,56 @@ def rule_d(ctx):
     ctx.floor(R, 1)
 
 
+def rule_e(ctx):
+    R = "C12.e"
+    ctx.rule(R, "the destination swatches of the fit are the reference colours as given: CustomColorChecker folded with reference colours passed as "
+             "an array stores exactly those values (a copy) -- clipping or any other value-changing step makes the balance fit towards other "
+             "destinations than the exact colour map prescribes (references outside [0, 1] arise from gains > 1 or negative offsets)")
+    from ..fold import Folder, Obj, Opaque, Raised, Refuse, Sym
+    from ..terms import nf
+    from .c05 import VALUE_CHANGING
+
+    m = ctx.model
+    ctx.consult(CC)
+    k = m.cls(CC, "CustomColorChecker")
+    init = m.method(k, "__init__")
+    ctx.instance(R)
+    REF = Opaque("ndarray", "REFERENCE")
+    so = Obj("self", {"__class__": "CustomColorChecker"})
+    fo = Folder(symbolic=True)
+    fo.func_stack.append(init.node)
+    fo.fold_all_methods = True
+    fo.overrides = {"np.count_nonzero": lambda a, k_: sum(1 for x in a[0] if x is True) if isinstance(a[0], (list, tuple)) and all(isinstance(x, bool) for x in a[0]) else (_ for _ in ()).throw(Refuse("count_nonzero"))}
+    title = "CustomColorChecker(reference_colors=R) keeps R (a copy) as its reference swatches"
+    try:
+        fo.call(init.node, [so], {"reference_colors": REF})
+    except (Refuse, Raised) as e:
+        ctx.ob(R, init.qname, title, False, f"fold of the constructor not found to be possible: {e}", init.node)
+        ctx.floor(R, 1)
+        return
+    vals = [(a, v) for a, v in so.fields.items() if a != "__class__" and "REFERENCE" in nf(v)]
+    if not vals:
+        ctx.ob(R, init.qname, title, False, "attribute holding the reference colours not found", init.node)
+    for a, v in vals:
+        t = v
+        while isinstance(t, Sym):
+            if t.attr in ("copy", "astype", "view") and t.recv is not None:
+                t = t.recv
+            elif t.fn in ("np.array", "np.asarray", "np.copy", "copy.copy", "copy.deepcopy") and t.args:
+                t = t.args[0]
+            else:
+                break
+        if t is REF:
+            ctx.ob(R, init.qname, title, True, "", init.node)
+        elif isinstance(t, Sym) and (t.fn in VALUE_CHANGING or (t.attr or "").lstrip(".") in ("clip", "round")):
+            ctx.ob(R, init.qname, title, False, f"self.{a} = {nf(v)[:100]}: the reference colours are changed in value before they become the destinations of the fit", init.node, evidence=True)
+        else:
+            ctx.ob(R, init.qname, title, False, f"self.{a} not found to be the reference array: {nf(v)[:100]}", init.node)
+    ctx.floor(R, 1)
+
+
 def run(ctx):
+    rule_e(ctx)
     side = rule_a(ctx)
     rule_b(ctx, side)
     rule_c(ctx)
